@@ -213,6 +213,8 @@ def check(chk, facts):
     unops(chk, facts)
     membership(chk, facts)
     access(chk, facts)
+    desugar(chk, facts)
+    relops(chk, facts)
 
 
 def check_tpe(chk, facts, rule="C14.TABLE.binop"):
@@ -362,3 +364,89 @@ def access(chk, facts):
                 ok = True
         neg = [s for b in region for s in f.blocks[b]["st"] if s[0] == "a" and s[2][0] == "un" and s[2][1] == "Not"]
         chk.ob(rule, "is", ok and not neg, "`e is T` compares entity_type() of the value with T, not negated: %s" % (ok and not neg), where=f.where(eqs[0][1][1].get("l") if eqs else None), fn=f.name)
+
+
+DESUGAR = {
+    # builder method -> the tree it must build (derived by constant propagation through the builder's own methods)
+    "greater": "UnaryApp(op=UnaryOp::Not,arg=BinaryApp(op=BinaryOp::LessEq,arg1=$2,arg2=$3))",      # a > b   ==  !(a <= b)
+    "greatereq": "UnaryApp(op=UnaryOp::Not,arg=BinaryApp(op=BinaryOp::Less,arg1=$2,arg2=$3))",      # a >= b  ==  !(a < b)
+    "noteq": "UnaryApp(op=UnaryOp::Not,arg=BinaryApp(op=BinaryOp::Eq,arg1=$2,arg2=$3))",            # a != b  ==  !(a == b)
+    "is_in_entity_type": "And(left=Is(expr=$2,entity_type=$3),right=BinaryApp(op=BinaryOp::In,arg1=$2,arg2=$4))",   # e is T in x == e is T && e in x
+    "less": "BinaryApp(op=BinaryOp::Less,arg1=$2,arg2=$3)",
+    "lesseq": "BinaryApp(op=BinaryOp::LessEq,arg1=$2,arg2=$3)",
+    "is_eq": "BinaryApp(op=BinaryOp::Eq,arg1=$2,arg2=$3)",
+    "is_in": "BinaryApp(op=BinaryOp::In,arg1=$2,arg2=$3)",
+    "contains": "BinaryApp(op=BinaryOp::Contains,arg1=$2,arg2=$3)",
+    "contains_all": "BinaryApp(op=BinaryOp::ContainsAll,arg1=$2,arg2=$3)",
+    "contains_any": "BinaryApp(op=BinaryOp::ContainsAny,arg1=$2,arg2=$3)",
+    "get_tag": "BinaryApp(op=BinaryOp::GetTag,arg1=$2,arg2=$3)",
+    "has_tag": "BinaryApp(op=BinaryOp::HasTag,arg1=$2,arg2=$3)",
+    "add": "BinaryApp(op=BinaryOp::Add,arg1=$2,arg2=$3)",
+    "sub": "BinaryApp(op=BinaryOp::Sub,arg1=$2,arg2=$3)",
+    "mul": "BinaryApp(op=BinaryOp::Mul,arg1=$2,arg2=$3)",
+    "not": "UnaryApp(op=UnaryOp::Not,arg=$2)",
+    "neg": "UnaryApp(op=UnaryOp::Neg,arg=$2)",
+    "is_empty": "UnaryApp(op=UnaryOp::IsEmpty,arg=$2)",
+}
+
+
+def desugar(chk, facts):
+    """The surface operators without a node of their own are built from the core operators the language definition gives,
+    operands left to right; every named builder method builds the operator it is named after."""
+    rule = "C02.TABLE.desugar"
+    from lib import hom
+    bm = hom.builder_map(facts, "cedar_policy_core::ast::expr::ExprBuilder<T>", ("ast::expr::ExprKind",))
+    n = 0
+    for m, want in sorted(DESUGAR.items()):
+        b = bm.get(m)
+        if b is None:
+            chk.lost(rule, "ExprBuilder::" + m)
+            continue
+        got = b.get("sig", b.get("undecided"))
+        n += 1
+        chk.ob(rule, m, got == want, "ExprBuilder::%s builds %s%s" % (m, got, "" if got == want else " — the definition requires %s" % want),
+               where="%s:%s" % (b.get("file"), b.get("line")) if b.get("file") else None, fn=b.get("fn"), key="%s:%s" % (rule, m), sample={"method": m, "builds": got})
+    chk.floor(rule, "builder methods", n, 19)
+
+
+RELOPS = {"Less": "less", "LessEq": "lesseq", "GreaterEq": "greatereq", "Greater": "greater", "NotEq": "noteq", "Eq": "is_eq", "In": "is_in"}
+
+
+def relops(chk, facts):
+    """The parser hands each relational operator token to the builder method of the same name, operands left to right."""
+    rule = "C02.TABLE.relop"
+    name = "cedar_policy_core::parser::cst_to_ast::construct_expr_rel"
+    f = facts.fn(name)
+    if f is None:
+        hits = [n for n in facts.fns.index if n.startswith(name) and "closure" not in n]
+        f = facts.fns[hits[0]] if len(hits) == 1 else None
+    r = facts.adts.get("cedar_policy_core::parser::cst::RelOp")
+    if f is None or r is None:
+        chk.lost(rule, name)
+        return
+    chk.functions.add(f.name)
+    sws = sorted(shape.variant_switches(f, "parser::cst::RelOp"), key=lambda s_: -len(s_[2]))
+    if not sws:
+        chk.lost(rule, "match on RelOp")
+        return
+    b, scrut, arms, other = sws[0]
+    L = shape.Labels(f, None, None, param_labels={1: {"LHS"}, 3: {"RHS"}})
+    n = 0
+    for vi, tgt in sorted(arms.items()):
+        vn = r["variants"][vi]["name"]
+        if vn not in RELOPS:
+            continue
+        region = own_region(f, "parser::cst::RelOp", b, arms, vi)
+        calls = [(bb, f.blocks[bb]["t"]) for bb in sorted(region) if f.blocks[bb]["t"][0] == "call" and callee(f.blocks[bb]["t"]).split("::")[-1] in set(RELOPS.values()) | {"not", "and", "or"}]
+        meths = [callee(t).split("::")[-1] for _, t in calls]
+        ok = meths == [RELOPS[vn]]
+        order = False
+        if ok:
+            t = calls[0][1]
+            l1 = {x for x in L.operand_labels(t[2][1]) if x in ("LHS", "RHS")}
+            l2 = {x for x in L.operand_labels(t[2][2]) if x in ("LHS", "RHS")}
+            order = l1 == {"LHS"} and l2 == {"RHS"}
+        n += 1
+        chk.ob(rule, vn, ok and order, "token %s is built with builder.%s%s" % (vn, meths, "(lhs, rhs)" if order else " — operands not in source order" if ok else " — required %s" % RELOPS[vn]),
+               where=f.where(calls[0][1][1].get("l") if calls else None), fn=f.name, key="%s:%s" % (rule, vn))
+    chk.floor(rule, "relational operator tokens", n, 7)
